@@ -223,7 +223,12 @@ func runOffsets(spec Spec) Result {
 // ---------------------------------------------------------------------------------------------
 // Client scenarios: background metadata refresh every 12 ms (or switched off), Close at the k-th
 // metadata request; "held": the refresh in flight is answered only after Close was invoked; "down":
-// the only broker stops answering. Second Close must answer ErrClosedClient.
+// the only broker stops answering; "saslfail": SASL/PLAIN is enabled (handshake v1), the first connection
+// authenticates, then the server drops the connection on the next metadata request and from then on fails the
+// SASL step of every new connection (mode 0: handshake answers UnsupportedSASLMechanism, 1: connection closed
+// during the handshake, 2: handshake never answered, 3: handshake fine, authentication answers
+// IllegalSASLState): the background refresher keeps opening, failing and closing the broker while Close is
+// called. Second Close must answer ErrClosedClient.
 
 func runClient(spec Spec) Result {
 	rc := newRunCtx(spec)
@@ -234,6 +239,25 @@ func runClient(spec Spec) Result {
 	var held int32
 	b.VerifC12SetHandler(func(kind string, body interface{}) interface{} {
 		rc.request(0, kind)
+		switch kind {
+		case "SaslHandshakeRequest":
+			if spec.Scen == "saslfail" && atomic.LoadInt32(&rc.armed) == 1 {
+				switch spec.p("mode", 0) {
+				case 0:
+					return &sarama.SaslHandshakeResponse{Err: sarama.ErrUnsupportedSASLMechanism, EnabledMechanisms: []string{"GSSAPI"}}
+				case 1:
+					return sarama.VerifC12Drop{}
+				case 2:
+					return nil
+				}
+			}
+			return &sarama.SaslHandshakeResponse{Err: sarama.ErrNoError, EnabledMechanisms: []string{"PLAIN"}}
+		case "SaslAuthenticateRequest":
+			if spec.Scen == "saslfail" && atomic.LoadInt32(&rc.armed) == 1 {
+				return &sarama.SaslAuthenticateResponse{Err: sarama.ErrIllegalSASLState}
+			}
+			return &sarama.SaslAuthenticateResponse{Err: sarama.ErrNoError}
+		}
 		if kind != "MetadataRequest" {
 			return nil
 		}
@@ -249,11 +273,17 @@ func runClient(spec Spec) Result {
 				}
 			case "down":
 				return nil
+			case "saslfail":
+				return sarama.VerifC12Drop{}
 			}
 		}
 		return r
 	})
 	cfg := baseConfig(sarama.MinVersion)
+	if spec.Scen == "saslfail" {
+		cfg = baseConfig(sarama.V1_0_0_0)
+		saslPlain(cfg)
+	}
 	if spec.p("refresh", 1) == 1 {
 		cfg.Metadata.RefreshFrequency = 12 * time.Millisecond
 	}
@@ -311,7 +341,18 @@ func runClient(spec Spec) Result {
 // ---------------------------------------------------------------------------------------------
 // Broker connection scenarios: "open": Open, wait until connected, optionally a request in flight
 // (answered after Close was invoked / never), Close, Close again; "never": Close on a broker that was
-// never opened; "refused": Open towards a dead address, then Close.
+// never opened; "refused": Open towards a dead address, then Close; "saslfail": SASL/PLAIN enabled, the
+// server accepts the TCP connection and then fails the SASL step (mode as in the client scenario): Open ends
+// not connected, Close must answer ErrNotConnected (and must not wait for a receiver that was never started).
+
+func saslPlain(cfg *sarama.Config) {
+	cfg.Net.SASL.Enable = true
+	cfg.Net.SASL.Mechanism = sarama.SASLTypePlaintext
+	cfg.Net.SASL.Handshake = true
+	cfg.Net.SASL.Version = sarama.SASLHandshakeV1
+	cfg.Net.SASL.User = "u"
+	cfg.Net.SASL.Password = "p"
+}
 
 func runBroker(spec Spec) Result {
 	rc := newRunCtx(spec)
@@ -321,6 +362,23 @@ func runBroker(spec Spec) Result {
 	defer mb.Close()
 	mb.VerifC12SetHandler(func(kind string, body interface{}) interface{} {
 		rc.request(0, kind)
+		switch kind {
+		case "SaslHandshakeRequest":
+			switch spec.p("mode", 0) {
+			case 0:
+				return &sarama.SaslHandshakeResponse{Err: sarama.ErrUnsupportedSASLMechanism, EnabledMechanisms: []string{"GSSAPI"}}
+			case 1:
+				return sarama.VerifC12Drop{}
+			case 2:
+				return nil
+			}
+			return &sarama.SaslHandshakeResponse{Err: sarama.ErrNoError, EnabledMechanisms: []string{"PLAIN"}}
+		case "SaslAuthenticateRequest":
+			if spec.p("mode", 0) == 3 {
+				return &sarama.SaslAuthenticateResponse{Err: sarama.ErrSASLAuthenticationFailed}
+			}
+			return &sarama.SaslAuthenticateResponse{Err: sarama.ErrNoError}
+		}
 		req, ok := body.(*sarama.MetadataRequest)
 		if !ok {
 			return nil
@@ -336,6 +394,10 @@ func runBroker(spec Spec) Result {
 		return r
 	})
 	cfg := baseConfig(sarama.MinVersion)
+	if spec.Scen == "saslfail" || spec.Scen == "saslok" {
+		cfg = baseConfig(sarama.V1_0_0_0)
+		saslPlain(cfg)
+	}
 	cfg.Net.MaxOpenRequests = spec.p("maxopen", 2)
 	addr := mb.Addr()
 	if spec.Scen == "refused" {
